@@ -81,3 +81,21 @@ Definition resolve (s : cstyle) (sbl sbr sbt sbb : val) (keep : string -> bool) 
 (* the containing block: a box, or the pair (width, height) *)
 Definition cbval (as_box : bool) (cbw : Q) (cbh : option Q) (cbrest : list (string * val)) : val :=
   if as_box then VObj (("width", VNum cbw) :: ("height", vo cbh) :: cbrest) else VList [VNum cbw; vo cbh].
+
+(* the computed border-collapse *)
+Definition bcv (collapse : bool) : val := VStr (if collapse then "collapse" else "separate").
+
+(* helpers of the judges (model/C05ResolveSpec.v, model/C05ResolveLink.v) *)
+Definition style_of_list (cs : list cval) : option cstyle :=
+  match cs with
+  | [a1; a2; a3; a4; a5; a6; a7; a8; a9; a10; a11; a12; a13; a14] => Some (mkStyle a1 a2 a3 a4 a5 a6 a7 a8 a9 a10 a11 a12 a13 a14)
+  | _ => None
+  end.
+Definition ha_of (h4 : bool * bool * bool * bool) (name : string) : bool :=
+  let '(hl, hr, ht, hb) := h4 in
+  if String.eqb name "border_left_width" then hl else if String.eqb name "border_right_width" then hr
+  else if String.eqb name "border_top_width" then ht else if String.eqb name "border_bottom_width" then hb else false.
+(* the box before resolve_percentages in the direct stream: no used value yet, except the border widths (99) of a
+   cell whose collapsed borders were resolved *)
+Definition used0 : used :=
+  mkUsed VNone VNone VNone VNone VNone VNone VNone VNone (VNum 99) (VNum 99) (VNum 99) (VNum 99) VNone VNone VNone VNone VNone VNone.
